@@ -263,7 +263,7 @@ static int finish(int rc) { vf::dump(); fflush(nullptr); _exit(rc); }   // skip 
 int main(int argc, char **argv) {
     std::string mode = argc > 1 ? argv[1] : "rc";
     dsched::on_fatal() = fatal_hook;
-    { const char *e = getenv("C27_KNOWN_CACHE_RACE"); g_include_cache_race = (e && std::string(e) == "include") || mode == "replay"; }
+    { const char *e = getenv("C27_KNOWN_CACHE_RACE"); g_include_cache_race = !(e && std::string(e) == "exclude") || mode == "replay"; }   // repaired in /repo (ea095bc): included by default
     if (shim_init(&argc, &argv) != 0) { fprintf(stderr, "parsec_init failed\n"); return 4; }
     if (mode == "replay") {
         std::string txt = vf::slurp(argv[2]);
